@@ -16,6 +16,9 @@ STRINGS = [
 STRINGS.insert(2, "CC{[$] [$]CC([$])C[$]; [$]O, [$]N, [$]F [$]}|gauss(120, 10)|Cl")
 # transition lists on repeat units whose sums are not 1 (a graph build or a generation must not normalise them in place)
 STRINGS.insert(2, "{[][<]CC[>|0 0 7 0 0 3|], [<]CO[>|2 0 0 0 1 0|]; [<]F, [>][H] []}|gauss(90, 15)|")
+# listed transitions between two different repeat units, both entries of every list reachable: the molecule depends on every listed pick
+# (a pick that does not come from the supplied generator shows at once)
+STRINGS.insert(2, "[H]{[>] [<]CC[>|1 0 3 0|], [<]C(F)C[>|3 0 1 0|] [<]}|gauss(300, 20)|O")
 
 
 def choose_seeds(g, text):
@@ -40,7 +43,7 @@ def choose_seeds(g, text):
 def run(tier):
     g = common.import_repo()
     v = Verdict("C10", tier)
-    strings = STRINGS if tier == "thorough" else STRINGS[:7]
+    strings = STRINGS if tier == "thorough" else STRINGS[:8]
     # seeds are chosen with a RecordingRNG, but the replay uses numpy's default_rng: map through the drawn value
     seedmap = []
     for s in strings:
